@@ -547,6 +547,15 @@ def canonicalise(tree: ast.Module, relpath: str, src: Optional[str] = None) -> a
             with open(tmp, "wb") as fh:
                 pickle.dump(tree, fh)
             os.replace(tmp, cache_path)
+            # the cache is bounded: the oldest entries go when it grows (entries of older versions of the code are never hit again)
+            names = os.listdir(os.path.dirname(cache_path))
+            if len(names) > 400:
+                full = sorted((os.path.join(os.path.dirname(cache_path), n) for n in names), key=lambda f: os.path.getmtime(f) if os.path.exists(f) else 0)
+                for f in full[:-250]:
+                    try:
+                        os.remove(f)
+                    except OSError:
+                        pass
         except Exception:
             pass
     return tree
